@@ -7,7 +7,7 @@ use vcore::rt::{self, digest_str, esc, Acc, Args, Report};
 use vcore::sgr::{self, from_style, to_style, MColor, MStyle, UL_KINDS};
 use vcore::vt::{self, Ev};
 
-const RULE: &str = "Styles: exhaustively all 4096 effect sets; all 16 palette + 256 indexed colours and all 256 values of each RGB component in each of the three colour slots; seeded random full styles. For each style: (1) rendered text strips to nothing and the reference parser sees only plain CSI..m events, (2) the reference SGR interpreter from the default state reproduces fg/bg/underline colour/effects (palette underline colour k comes back as index k; when several underline kinds are set any one of them is accepted), (3) reset form empty iff plain, otherwise it restores the default state, (4) Display == Style::render() == write_to bytes (into a Vec and into writers that accept only 1, 2, 5 or 7 bytes per call), write_reset_to == render_reset, (5) every format spec of the grid (width x fill/align x precision x alternate) gives the same bytes as the plain spec. Non-trivial = style has at least one effect or colour (distinct by style value; for the grid: distinct (style, spec) with a width or precision that would alter a plain &str).";
+const RULE: &str = "Styles: exhaustively all 4096 effect sets; all 16 palette + 256 indexed colours and all 256 values of each RGB component in each of the three colour slots; seeded random full styles; the longest renderings (all effects with three-digit RGB colours in every slot). For each style: (1) rendered text strips to nothing and the reference parser sees only plain CSI..m events, (2) the reference SGR interpreter from the default state reproduces fg/bg/underline colour/effects (palette underline colour k comes back as index k; when several underline kinds are set any one of them is accepted), (3) reset form empty iff plain, otherwise it restores the default state, (4) Display == Style::render() == write_to bytes (into a Vec and into writers that accept only 1, 2, 5 or 7 bytes per call), write_reset_to == render_reset, (5) every format spec of the grid (width x fill/align x precision x alternate) gives the same bytes as the plain spec. Non-trivial = style has at least one effect or colour (distinct by style value; for the grid: distinct (style, spec) with a width or precision that would alter a plain &str).";
 
 fn arb_color() -> impl Strategy<Value = MColor> {
     prop_oneof![
@@ -401,6 +401,37 @@ fn run(args: &Args, rep: &mut Report) {
         acc
     });
     rep.add("slot-interactions", true, "8 x 8 x 8 colour assignments to (fg, bg, underline) incl. unset and equal colours x 4 effect sets", accs);
+
+    // longest renderings: all twelve effects (or all but one) with the longest spelling of a colour in
+    // every slot - the sizes at which a fixed-capacity buffer would overflow
+    let longest: Vec<Option<MColor>> = vec![
+        Some(MColor::Rgb(255, 255, 255)),
+        Some(MColor::Rgb(100, 100, 100)),
+        Some(MColor::Rgb(200, 99, 255)),
+        Some(MColor::Idx(255)),
+        Some(MColor::Ansi(15)),
+        None,
+    ];
+    let effect_sets: Vec<u16> = std::iter::once(4095u16).chain((0..12).map(|i| 4095 & !(1 << i))).collect();
+    let accs = rt::par(longest.len(), |w| {
+        let mut acc = Acc::new();
+        for bg in &longest {
+            for ul in &longest {
+                for e in &effect_sets {
+                    let m = MStyle { fg: longest[w], bg: *bg, ul: *ul, effects: *e };
+                    acc.eval();
+                    acc.nontrivial_distinct();
+                    if let Err(err) = rt::guarded(|| check_style(m)) {
+                        acc.fail("longest-styles", style_json(&m), err);
+                        return acc;
+                    }
+                }
+            }
+        }
+        acc.samples.push(json!({"fg": format!("{:?}", longest[w]), "bg/ul": "all 6 x 6", "effects": "all 12, and all but each one", "longest_rendering_bytes": format!("{}", to_style(MStyle { fg: longest[0], bg: longest[0], ul: longest[0], effects: 4095 })).len()}));
+        acc
+    });
+    rep.add("longest-styles", true, "6 x 6 x 6 colour assignments with the longest spellings (three-digit RGB components, index 255) x 13 effect sets (all twelve, all but one)", accs);
 
     // random full styles
     rep.add(
